@@ -498,11 +498,13 @@ class Config(callbacks.Plugin):
                 changroup = netgroup.get(channel)
                 checkCanSetValue(irc, msg, changroup)
                 changroup._setValue(netgroup.value, inherited=True)
+                registry._cache.pop(changroup._name, None)
 
             # reset group.#channel
             changroup = group.get(channel)
             checkCanSetValue(irc, msg, changroup)
             changroup._setValue(group.value, inherited=True)
+            registry._cache.pop(changroup._name, None)
 
             irc.replySuccess()
         channel = wrap(channel, [
@@ -522,6 +524,7 @@ class Config(callbacks.Plugin):
             changroup = group.get(':' + network.network)
             checkCanSetValue(irc, msg, changroup)
             changroup._setValue(group.value, inherited=True)
+            registry._cache.pop(changroup._name, None)
 
             irc.replySuccess()
         network = wrap(network, ['networkIrc', 'settableConfigVar'])
